@@ -287,7 +287,7 @@ PLANS["C11"] = {
              "rough_tlv_len == emitted length (every nesting level), MessageView accepts and returns the stably sorted pairs through iter / get / "
              "find, new_from_sorted rejects iff some tag decreases. (b) limits: lists of values that only CLAIM a length (never encoded), lengths "
              "aimed at i32::MAX-2..+2 for single values and for the total; verdict must equal the arithmetic predicate of the statement. non-trivial "
-             "= every case; distinct = distinct (value kind, constructor, sink, count class, repeated-tags, boundary class)."),
+             "= every case; distinct = distinct (value kind, constructor, sink, count class, repeated-tags, rank/duplicate pattern of the first ten tags, empty/long-value pattern, boundary class)."),
     "assumptions": ["the pair-count limit (> i32::MAX pairs) is implied by the total-length limit (8N > i32::MAX for N >= 2^28); it is probed at "
                     "N = 2^28-1 / 2^28 with zero-sized values in the thorough tier only (1 GiB vector)",
                     "borrowed values outlive the sink: the harness owns every buffer for the whole case"],
